@@ -55,6 +55,21 @@ def run(ctx):
     ctx.tlc_mc("SourceLifetime", "MC_SourceLifetime_asfound", workers=2, timeout=300, expect_violation="NoFault")
     ctx.tlc_mc("SourceLifetime", "MC_SourceLifetime_zerocopy", workers=2, timeout=300, expect_violation="NoFault")
     ctx.tlc_mc("SourceLifetime", "MC_SourceLifetime_nopolltimeout", workers=2, timeout=300, expect_violation="CloseTerminates")
+    if not quick:
+        # unbounded version of NoFault for the repaired source (any number of frames): an inductive invariant discharged by Apalache
+        import shutil
+        import subprocess
+        if shutil.which("apalache-mc"):
+            d = os.path.join(ctx.scratch, "apalache")
+            os.makedirs(d, exist_ok=True)
+            shutil.copy(os.path.join(vf.VERIF, "spec", "SourceLifetimeInd.tla"), d)
+            for args in (["--init=Init", "--inv=IndInv", "--length=0"], ["--init=IndInit", "--inv=IndInv", "--length=1"]):
+                p = subprocess.run(["apalache-mc", "check"] + args + ["SourceLifetimeInd.tla"], cwd=d, stdout=subprocess.PIPE, stderr=subprocess.STDOUT, text=True, timeout=900)
+                if "The outcome is: NoError" not in p.stdout:
+                    raise vf.Inconclusive("Apalache did not discharge the inductive invariant of SourceLifetimeInd (%s):\n%s" % (" ".join(args), p.stdout[-2000:]))
+            ctx.step("apalache", module="SourceLifetimeInd", inductive_invariant="IndInv", implies="NoFault", outcome="NoError")
+        else:
+            ctx.notes.append("apalache-mc not found: the inductive-invariant step for SourceLifetimeInd was skipped")
     n4, rej = wt.run_wire(ctx, label="c12w", focus="clean")
     wt.report(ctx, "C12", rej)
     # runs with a Ctrl-C as event sequences against ScanRun: Sigint -> no further pass, at most the probes in flight, exit within the bound
